@@ -136,7 +136,11 @@ func init() {
 		jobs: func(tier string) []*Job {
 			var js []*Job
 			add := func(tpl, ln, pn, idv, cfg, skip, cs int) {
-				js = append(js, &Job{Module: "mcap", Harness: "VC01RoundTrip", Params: P("tpl", tpl, "ln", ln, "pn", pn, "idv", idv, "cfg", cfg, "skip", skip, "cs", cs), TimeoutS: 600})
+				to := 600
+				if skip < 0 {
+					to = 2400 // 256 flag combinations
+				}
+				js = append(js, &Job{Module: "mcap", Harness: "VC01RoundTrip", Params: P("tpl", tpl, "ln", ln, "pn", pn, "idv", idv, "cfg", cfg, "skip", skip, "cs", cs), TimeoutS: to})
 			}
 			if tier == "quick" {
 				for _, tpl := range []int{1, 5, 6, 7} {
@@ -455,18 +459,18 @@ func init() {
 				add(5, 1, 1, 1, 512) // no CRCs in the file, validating lexer
 				return js
 			}
-			for _, tpl := range []int{1, 5, 6, 7} {
-				for _, c := range [][3]int{{3, 1, 0}, {3, 1, 1}, {3, 1000, 1}, {2, 1000, 0}, {7, 1, 1}, {1, 60, 0}} {
-					add(tpl, c[0], c[1], c[2], 640)
+			for _, tpl := range []int{5, 6, 7} {
+				for _, c := range [][3]int{{3, 1, 0}, {3, 1, 1}, {3, 1000, 1}, {2, 1000, 0}, {7, 1, 1}, {1, 60, 1}} {
+					add(tpl, c[0], c[1], c[2], 576)
 				}
 			}
 			return js
 		},
 		bounds: map[string]any{
 			"quick":    map[string]any{"files": "T5 chunked (one chunk per message; with CRCs and without, validating lexer) and T6 unchunked (with an attachment and a metadata record)", "cut": "cut position L symbolic, the range 0..len(file)-1 partitioned into cells of 16 bytes (one job per cell; the union is every position)", "symbolic": "L, every field value and byte of the file", "readers": "lexer with attachment callback; non-indexed message iterator"},
-			"thorough": map[string]any{"files": "T1,T5,T6,T7 x 6 option sets (chunk sizes 1/60/1000, CRC on/off, xor codec, validating or not)", "cut": "as quick"},
+			"thorough": map[string]any{"files": "T5,T6,T7 x 6 option sets (chunk sizes 1/60/1000, CRC on/off, xor codec, validating or not)", "cut": "as quick"},
 		},
-		outside:     append([]string{"files longer than 640 bytes"}, outsideCommon...),
+		outside:     append([]string{"files longer than 576 bytes"}, outsideCommon...),
 		assumptions: append([]string{"stored chunk CRCs are non-zero (with the CRC uninterpreted, 0 is otherwise a feasible value and means 'validation not available'; a real CRC-32 is 0 with probability 2^-32)", "ideal checksum: two CRC values are equal exactly when the byte sequences fed are equal (an accidental collision between a truncated chunk and the stored CRC has probability 2^-32)"}, commonAssumptions...),
 	}
 }
@@ -490,9 +494,9 @@ func init() {
 			rds := []int{0, 1, 2, 3}
 			jmax, kmax := 96, 9
 			if tier == "thorough" {
-				files = []fc{{5, 3, 1, 1}, {5, 3, 1, 0}, {6, 3, 1000, 1}, {6, 2, 1000, 0}, {7, 3, 1, 0}, {1, 1, 60, 0}, {5, 7, 1, 1}}
+				files = []fc{{5, 3, 1, 1}, {6, 3, 1000, 1}, {6, 2, 1000, 0}, {5, 7, 1, 1}}
 				rds = []int{0, 1, 2, 3, 4}
-				jmax = 160
+				jmax = 128
 			}
 			if tier == "quick" {
 				// a file with an attachment and a metadata record, lexer only: fragmentation inside the attachment's
@@ -539,7 +543,7 @@ func init() {
 		},
 		bounds: map[string]any{
 			"quick":    map[string]any{"file": "T5 chunked (one chunk per message, CRC on), validating lexer; for the lexer also T6 unchunked (attachment read through the callback incl. its stored CRC, metadata)", "readers": "lexer; non-indexed iterator; indexed iterator in file order and in log-time order", "fragmentation": "one short read at symbolic read-call index J (0..95, cells of 8; beyond the last call the run is the plain one) returning symbolic K bytes (1..9: every split of a 9-byte record header); every read limited to 1, 2, 5 bytes; final bytes delivered together with io.EOF", "io_error": "error at symbolic byte position E (cells of 16 over the whole file), delivered on its own call or together with the last good bytes: sticky for the sequential readers; for index-based reads byte E alone is unreadable (reads that do not touch it succeed, and a read that never needs it must return everything); for Messages() with the index (and on files without chunk indexes / without chunks, where it seeks back and scans) also a failure of the Seek call with symbolic index S in 0..15 (more Seek calls than the reads make)", "symbolic": "J, K, E, every field value and byte of the file"},
-			"thorough": map[string]any{"files": "T1,T5,T6,T7 under 7 option sets (incl. xor codec, unchunked, non-validating)", "readers": "as quick + reverse log-time order", "fragmentation": "J over 0..159", "io_error": "both delivery forms at every position"},
+			"thorough": map[string]any{"files": "T5 (one chunk per message; also with the xor codec), T6 (one chunk, and unchunked)", "readers": "as quick + reverse log-time order", "fragmentation": "J over 0..127", "io_error": "both delivery forms at every position"},
 		},
 		outside:     append([]string{"a one-shot (non-sticky) error delivered together with the last bytes a ReadFull needs: io.ReadAtLeast drops it by specification", "more than one short read per run (the every-read-limited schedules cover repeated fragmentation)"}, outsideCommon...),
 		assumptions: append([]string{"stored chunk CRCs are non-zero (with the CRC uninterpreted, 0 is otherwise a feasible value and means 'validation not available'; a real CRC-32 is 0 with probability 2^-32)", "ideal checksum: two CRC values are equal exactly when the byte sequences fed are equal (an accidental collision between a truncated chunk and the stored CRC has probability 2^-32)"}, commonAssumptions...),
